@@ -9,18 +9,18 @@ EXTENDS Integers, Sequences, TLC, Json, IOUtils
 Obs == ndJsonDeserialize(IOEnv.TRACE_FILE)
 NChunks == 64
 
-VARIABLES ch, i
-kvars == <<ch, i>>
+VARIABLES kch, kpos
+kvars == <<kch, kpos>>
 
 ChunkLo(c) == ((c - 1) * Len(Obs)) \div NChunks + 1
 ChunkHi(c) == (c * Len(Obs)) \div NChunks
 
-KInit == /\ ch \in {c \in 1..NChunks : ChunkLo(c) <= ChunkHi(c)}
-         /\ i = ChunkLo(ch)
-KNext == /\ i < ChunkHi(ch)
-         /\ i' = i + 1
-         /\ ch' = ch
+KInit == /\ kch \in {c \in 1..NChunks : ChunkLo(c) <= ChunkHi(c)}
+         /\ kpos = ChunkLo(kch)
+KNext == /\ kpos < ChunkHi(kch)
+         /\ kpos' = kpos + 1
+         /\ kch' = kch
 KSpec == KInit /\ [][KNext]_kvars
 
-O == Obs[i]
+O == Obs[kpos]
 =============================================================================
